@@ -550,13 +550,14 @@ make_fn!(
         _ => must!(punct!(")")),
         _ => must!(punct!("=>")),
         _ => must!(punct!("{")),
-        tpl => must!(field_list),
+        // The arms are a tuple, which like every tuple can be empty.
+        tpl => optional!(field_list),
         _ => optional!(punct!(",")),
         _ => must!(punct!("}")),
         (Expression::Select(SelectDef {
             val: Box::new(val),
             default: default.map(Box::new),
-            tuple: tpl,
+            tuple: tpl.unwrap_or_default(),
             pos,
         }))
     )
